@@ -1101,6 +1101,7 @@ def make_math():
 
 def _scalar(x):
     if isinstance(x, _np.ndarray):
+        x = _np.asarray(x)                      # class T overrides .size with torch's method
         if x.size != 1: raise TraceError('math function on a non-scalar')
         return x.reshape(-1)[0]
     return x
